@@ -211,7 +211,7 @@ def free_mix(ctx, r):
         base.close()
 
 
-def init_races(ctx, r):
+def init_races(ctx, r, prop="C02", layouts=None):
     """`init` is one of the commands C02 quantifies over: on every layout of `.ergo/` (log and lock present or not, legacy name) it is
     parked after each of its calls on the store's names (stat calls included: it looks, then acts) while a writer runs to completion,
     and the other way round.  Whatever was acknowledged must be in effect afterwards: the items of the final store are those of a
@@ -235,7 +235,7 @@ def init_races(ctx, r):
     writers = [("new-task", ["--json", "new", "task"], b'{"title":"acknowledged"}'),
                ("plan", ["--json", "plan"], b'{"title":"P","tasks":[{"title":"p1"},{"title":"p2","after":["p1"]}]}'),
                ("compact", ["--json", "compact"], None)]
-    for name in ("lock only", "bare", "two-tasks", "legacy", "two-tasks, no lock"):
+    for name in (layouts or ("lock only", "bare", "two-tasks", "legacy", "two-tasks, no lock")):
         base = layout(name)
         try:
             for wname, wargv, wstdin in writers:
@@ -283,19 +283,19 @@ def init_races(ctx, r):
                             step = {"layout of .ergo/": name, "A (parked after %s)" % at: aargv[:1] + ["<dir>"] if who == "init parked" else aargv, "B (runs to completion meanwhile)": bargv[:1] + ["<dir>"] if who != "init parked" else bargv,
                                     "writer_stdin": (wstdin or b"").decode(), "writer_exit": rw["exit"], "writer_stderr": rw["stderr"].strip()[:200], "init_exit": ri["exit"]}
                             if rb.get("timeout"):
-                                ctx.violation("C02 command blocks (init ∥ %s)" % wname, "B did not return within 10 s", {"trace": [step]}); return
+                                ctx.violation(prop + " command blocks (init ∥ %s)" % wname, "B did not return within 10 s", {"trace": [step]}); return
                             busy = rw["exit"] == 1 and "lock busy" in rw["stderr"]
                             got = view(c)
                             lp = c.log_bytes()
                             if lp and not lp.endswith(b"\n"):
-                                ctx.violation("C02 log does not end in a newline after init ∥ %s" % wname, "layout %s, %s after %s" % (name, who, at), {"trace": [step]}); return
+                                ctx.violation(prop + " log does not end in a newline after init ∥ %s" % wname, "layout %s, %s after %s" % (name, who, at), {"trace": [step]}); return
                             if rw["exit"] == 0 and got != want:
-                                ctx.violation("C02 acknowledged write lost: init ∥ %s (%s)" % (wname, name),
+                                ctx.violation(prop + " acknowledged write lost: init ∥ %s (%s)" % (wname, name),
                                               "%s after %s; the writer exited 0, afterwards the store shows %s instead of %s" % (who, at, json.dumps(got)[:300], json.dumps(want)[:300]), {"trace": [step]}); return
                             if not busy and rw["exit"] != 0 and cmdrun.classify_stderr(rw["stderr"]) is None:
-                                ctx.violation("C02 writer fails beside init (%s, %s)" % (wname, name), "%s after %s: exit %s %s" % (who, at, rw["exit"], rw["stderr"].strip()[:200]), {"trace": [step]}); return
+                                ctx.violation(prop + " writer fails beside init (%s, %s)" % (wname, name), "%s after %s: exit %s %s" % (who, at, rw["exit"], rw["stderr"].strip()[:200]), {"trace": [step]}); return
                             if ri["exit"] != 0:
-                                ctx.violation("C02 init fails beside a writer (%s, %s)" % (wname, name), "%s after %s: exit %s %s" % (who, at, ri["exit"], ri["stderr"].strip()[:200]), {"trace": [step]}); return
+                                ctx.violation(prop + " init fails beside a writer (%s, %s)" % (wname, name), "%s after %s: exit %s %s" % (who, at, ri["exit"], ri["stderr"].strip()[:200]), {"trace": [step]}); return
                         finally:
                             if pk is not None:
                                 pk.kill()
